@@ -85,6 +85,26 @@ Theorem C08_builder_plan_ok_bounded :
     plan_ok (goal_of b) (i_region (mk_input n ov ol tv tl lok m force)) ss = true.
 Proof. exact builder_plan_ok_bounded_pf. Qed.
 
+(* ---- the builder's own rule for leader targets (allowLeader's store checks), exhaustive for the same inputs: outside the
+        forced-leader variant every TransferLeader step of a plan goes to a store that accepts leaders - also when that
+        store led the region before the plan moved the leader away (repaired: planReplaceLeaders judged the second
+        transfer with the leader of before the first one) ---- *)
+Theorem C08_builder_leader_only_to_accepting_stores_bounded :
+  forall n, (1 <= n <= 3)%nat ->
+  forall ov ol tv tl lok m force,
+    In ov (vectors role_opts n) -> In ol (voters_of (origin_of ov)) ->
+    In tv (vectors role_opts n) -> In tl (0 :: voters_of (target_of tv)) ->
+    In lok (vectors [true; false] n) -> In m modes ->
+  forall b ss kl kr,
+    prepared (mk_input n ov ol tv tl lok m force) = Some b -> build (mk_input n ov ol tv tl lok m force) = Built ss kl kr ->
+    leader_stores_ok (b_cluster b) ol (b_tleader b) (b_force b) ss = true.
+Proof. exact builder_leader_stores_bounded_pf. Qed.
+
+Theorem C08_leader_bounce_rejected :
+  leader_stores_ok (Cluster [Store 1 true false []; Store 2 true true []; Store 3 true true []] false false 0) 1 0 false
+    [TransferLeader 1 2; AddLearner 3 203; PromoteLearner 3 203; TransferLeader 2 1; RemovePeer 2 102; TransferLeader 1 3] = false.
+Proof. exact leader_bounce_rejected. Qed.
+
 (* ---- the two inputs on which the builder violated the property before it was repaired ---- *)
 (* S16: without joint-consensus support a voter->learner change is split into remove+add on the same store; the add
    now waits until the store is free and gets a new peer id *)
@@ -251,6 +271,8 @@ Proof.
 Qed.
 
 Print Assumptions C08_executor_never_sends_unsafe_step.
+Print Assumptions C08_builder_leader_only_to_accepting_stores_bounded.
+Print Assumptions C08_leader_bounce_rejected.
 Print Assumptions C08_plan_ok_sound.
 Print Assumptions C08_exec_plan_covers_steps.
 Print Assumptions C08_check_safety_sound.
